@@ -770,6 +770,31 @@ func movesTable() *tableDef {
 		if best != nil && best.PCEV != nil {
 			base = volVal{new(big.Int).Set(best.PCEV.Input), new(big.Int).Set(best.PCEV.Output)}
 		}
+		// rows of the same INSERT processed before this one (a transaction's moves are one statement)
+		var bestEff gotime.Time
+		var bestSeq uint64
+		havePending := false
+		if best != nil {
+			bestEff, bestSeq = best.EffectiveDate.Time, best.Seq
+		}
+		for _, pv := range x.pending {
+			if strOf(pv[1]) != lr.Name || strOf(d.val(pv, "accounts_address")) != strOf(d.val(vals, "accounts_address")) || strOf(d.val(pv, "asset")) != strOf(d.val(vals, "asset")) {
+				continue
+			}
+			pe := d.val(pv, "effective_date").(gotime.Time)
+			ps, _ := uintOf(pv[0])
+			if !(pe.Before(eff) || (pe.Equal(eff) && ps < seq)) {
+				continue
+			}
+			pc, ok := d.val(pv, "post_commit_effective_volumes").(volVal)
+			if !ok {
+				continue
+			}
+			if (best == nil && !havePending) || pe.After(bestEff) || (pe.Equal(bestEff) && ps > bestSeq) {
+				bestEff, bestSeq, havePending = pe, ps, true
+				base = volVal{new(big.Int).Set(pc.in), new(big.Int).Set(pc.out)}
+			}
+		}
 		vals[d.colIndex("post_commit_effective_volumes")] = volVal{base.in.Add(base.in, in), base.out.Add(base.out, out)}
 		return nil
 	}
